@@ -2,8 +2,7 @@ SPECIFICATION MCSpec
 CONSTANTS
   Types = {"T1", "T2"}
   Procs = {1}
-  Fns = {"f1", "f2", "g1"}
-  FnType <- c01FnType
+  Fns = {"f0", "f1"}
   Vals = {"a", "b"}
   Ctxs = {}
   Profiles <- c01Profiles
@@ -11,6 +10,7 @@ CONSTANTS
   TopKinds = {"sub", "unsub", "clear", "clearall", "count", "pub", "wait"}
   MaxReg = 2
   MaxPub = 2
+  MaxTop = 0
   Mutant = "none"
 INVARIANTS TypeOK AtMostOncePerPublish MustNotDeliver MustDeliver OnceAtMostOnce OnceRetired WaitCovers
 CHECK_DEADLOCK FALSE
